@@ -58,6 +58,24 @@ def stateless(ctx, tree, key_prefix):
                     continue   # call-local cache passed in by checksigs (checked by the cache-scope rule)
                 if g.name == "checksigs" and recv.startswith("public_pair_blobs.") and _callers_pass_fresh(ctx, g, "public_pair_blobs"):
                     continue   # every caller hands over a list it has just built
+                # an attribute no reviewed function of the module writes is a memo added since the review: judged by whether it can
+                # go stale (handed out again without looking at the state it was computed from), not by its existence
+                import re as _re
+                m_ = _re.match(r"^((?:self|cls|class_)\.\w+)", recv)
+                if m_ is not None:
+                    from sa import modref as _modref
+                    tree_ = _modref._tree(g.module.name)
+                    known = sym._attrs_written_in(tree_) if tree_ is not None else None
+                    if known is not None and m_.group(1).split(".")[1] not in known:
+                        try:
+                            sm_ = sym.summarize(sym.expanded(ctx, g), sym.Canon(sym.make_const_of(ctx, g), None, None))
+                            stale = sym.stale_memo(sm_, {m_.group(1)})
+                        except Exception:
+                            stale = None
+                        if not stale:
+                            ctx.undecided("%s:%s:%s" % (key_prefix, g.name, recv), ctx.where(g, wr.node), "%s keeps `%s` between calls (added since the review); it is handed out again only under a test that reads the object's state, or this rule cannot read when: no verdict on whether it can go stale"
+                                          % (g.qualname.split(".", 3)[-1], m_.group(1)))
+                            continue
                 ctx.bad("%s:%s:%s" % (key_prefix, g.name, recv), ctx.where(g, wr.node),
                         "%s writes `%s` (receiver: %s): validation keeps state on the transaction or on the checker, so a later validation of the same "
                         "object can differ from the verdict of a fresh object" % (g.qualname.split(".", 3)[-1], recv, wr.why),
@@ -185,11 +203,19 @@ def c06_3(ctx):
     fr = sym.exits_formula(w, true_ret)
     s = sym.may_set(fr, U, E) if fr is not False else E
     want = iv(("s", 1), None)
-    ctx.check(s.issubset(want), "missing-unspent-length", ctx.where(f),
-              "Tx.is_solution_ok can report an input valid when len(self.unspents) is in %s relative to the input index; it must be False unless len(unspents) > index" % s.fmt(idx),
-              sample={"subject": "len(self.unspents)", "may_return_true": s.fmt(idx)})
     none_atom = ("op", "self.unspents[%s] is None" % idx)
-    ctx.check(fr is not False and sym.entails(fr, gi.f_not(none_atom)) and none_atom[1] in gi.f_opaques(fr), "missing-unspent-none", ctx.where(f), "Tx.is_solution_ok can return a positive verdict although unspents[index] is None")
+    own_guard = s.issubset(want) and fr is not False and sym.entails(fr, gi.f_not(none_atom)) and none_atom[1] in gi.f_opaques(fr)
+    if not own_guard and not any(("self.unspents" in o) for o in (gi.f_opaques(fr) if fr not in (True, False) else []) if isinstance(o, str)) and s == U:
+        # no test of its own on the recorded outputs at all: the verdict then rests on check_solution refusing an unknown spent
+        # output with ScriptError (decided below, together with `only ScriptError is converted` and `True only after the call`)
+        ctx.note("is_solution_ok has no guard of its own on self.unspents: it relies on Tx.check_solution's")
+        relies_on_callee = True
+    else:
+        relies_on_callee = False
+        ctx.check(s.issubset(want), "missing-unspent-length", ctx.where(f),
+                  "Tx.is_solution_ok can report an input valid when len(self.unspents) is in %s relative to the input index; it must be False unless len(unspents) > index" % s.fmt(idx),
+                  sample={"subject": "len(self.unspents)", "may_return_true": s.fmt(idx)})
+        ctx.check(fr is not False and sym.entails(fr, gi.f_not(none_atom)) and none_atom[1] in gi.f_opaques(fr), "missing-unspent-none", ctx.where(f), "Tx.is_solution_ok can return a positive verdict although unspents[index] is None")
     # only ScriptError is converted to False; True is returned only after check_solution returned
     cs = sym.calls_matching(w, "self.check_solution")
     if not cs:
@@ -203,7 +229,8 @@ def c06_3(ctx):
     tr = sym.exits_formula(w, lambda e: e.kind == "return" and isinstance(e.value, ast.Constant) and e.value.value is True)
     ctx.check(tr is not False and sym.entails(tr, r_call) and not any("exc@" in o for o in (gi.f_opaques(tr) if tr not in (True, False) else [])), "true-after-check", ctx.where(f),
               "Tx.is_solution_ok does not return True exactly after a check_solution call that did not raise")
-    sym.against_reference(ctx, f, _ref(), "btx_is_solution_ok", "verdict-form", lambda t: t.startswith("len("))
+    if not relies_on_callee:
+        sym.against_reference(ctx, f, _ref(), "btx_is_solution_ok", "verdict-form", lambda t: t.startswith("len("))
     # the same guard in check_solution itself (callers use it directly): no checker runs for an unknown spent output
     cs_f = ctx.func(CTX, "Tx.check_solution")
     cidx = cs_f.params()[1]
